@@ -28,6 +28,7 @@ type HarnessCfg struct {
 	MaxPaths  map[string]int            `json:"max_paths"` // tier -> limit
 	What      string                    `json:"what"`
 	NoReplay  bool                      `json:"no_replay"`
+	MaxSeconds map[string]int           `json:"max_seconds"`
 }
 
 type CheckCfg struct {
@@ -47,6 +48,7 @@ type CheckCfg struct {
 	Assumptions  []string          `json:"assumptions"`
 	Functions    []string          `json:"functions"`
 	SkipInit     []string          `json:"skip_init"`
+	AllocEnumMax int               `json:"alloc_enum_max"`
 }
 
 type KnownFinding struct {
@@ -134,6 +136,9 @@ func main() {
 	if cfg.MaxPreempt > 0 {
 		P.MaxPreempt = cfg.MaxPreempt
 	}
+	if cfg.AllocEnumMax > 0 {
+		P.AllocEnumMax = cfg.AllocEnumMax
+	}
 	if cfg.MaxSteps > 0 {
 		P.MaxSteps = cfg.MaxSteps
 	}
@@ -196,7 +201,15 @@ func main() {
 		if v, ok := hc.MaxPaths[*tier]; ok {
 			maxPaths = v
 		}
-		res := sym.Explore(P, hs, sym.ExploreOpts{Workers: *workers, MaxPaths: maxPaths, SolverName: *solver, TimeoutMs: timeout, MaxViolations: 50})
+		maxSec := 600
+		if *tier == "thorough" {
+			maxSec = 3600
+		}
+		if v, ok := hc.MaxSeconds[*tier]; ok {
+			maxSec = v
+		}
+		res := sym.Explore(P, hs, sym.ExploreOpts{Workers: *workers, MaxPaths: maxPaths, SolverName: *solver, TimeoutMs: timeout, MaxViolations: 50,
+			Deadline: time.Now().Add(time.Duration(maxSec) * time.Second), Progress: *verbose})
 		results = append(results, hres{hc, res})
 		states += res.Paths
 		transitions += res.Steps
@@ -481,6 +494,10 @@ func TestVerifReplay(t *testing.T) {
 			fmt.Println("REPLAY-REPRODUCED assert", v.Label)
 			return
 		}
+		if s, ok := r.(string); ok && len(s) > 12 && s[:12] == "verif replay" {
+			fmt.Println("REPLAY-ERROR", s)
+			return
+		}
 		fmt.Printf("REPLAY-REPRODUCED panic %%v\n", r)
 	}()
 	%s()
@@ -553,6 +570,9 @@ func runReplayDir(repoDir, dir string) (bool, string) {
 	out, _ := cmd.CombinedOutput()
 	s := string(out)
 	os.WriteFile(filepath.Join(dir, "replay.log"), out, 0o644)
+	if strings.Contains(s, "REPLAY-ERROR") {
+		return false, s
+	}
 	if strings.Contains(s, "REPLAY-REPRODUCED") {
 		return true, s
 	}
